@@ -248,7 +248,10 @@ func newWriterBuffer(min int) *bytes.Buffer {
 		return bytes.NewBuffer(make([]byte, min))
 	}
 	if v := writerBufferPool.Get(); v != nil {
-		return v.(*bytes.Buffer)
+		// a buffer pooled while MessageBufferLength was smaller may be too short
+		if b := v.(*bytes.Buffer); cap(b.Bytes()) >= min {
+			return b
+		}
 	}
 	return bytes.NewBuffer(make([]byte, MessageBufferLength))
 }
